@@ -17,3 +17,33 @@ package authgrants
 //@   ensures err == nil ==> ref(ags) == ref(old(m.agMap[user][key])) && off(ags) == off(old(m.agMap[user][key])) && len(ags) == len(old(m.agMap[user][key]))
 //@   ensures err != nil ==> len(ags) == 0
 //@   ensures forall k [32]uint8 :: k != key ==> (has(m.agMap[user], k) <==> old(has(m.agMap[user], k)))
+
+// The per-user maps held in agMap are never nil: AddAuthGrant is the only writer of agMap
+// (checked structurally by the C07 check) and stores make(...).
+//@ mapinv nonnil map[string]map[keys.DHPublicKey][]authgrants.Authgrant : only AddAuthGrant writes agMap, and it stores make(...)
+
+//@ objinv AuthgrantMapSync : self.agMap != nil
+//@ func NewAuthgrantMapSync() (m *AuthgrantMapSync)
+//@   property C07
+//@   ensures m != nil && m.agMap != nil
+
+// A stored grant is a field-for-field copy of the intent's authorising fields.
+//@ func newAuthgrant(i *Intent, p PrincipalID) (ag Authgrant)
+//@   property C07
+//@   pure
+//@   ensures ag.GrantType == i.GrantType && same(ag.StartTime, i.StartTime) && same(ag.ExpTime, i.ExpTime) &&
+//@           same(ag.AssociatedData.CommandGrantData.Cmd, i.AssociatedData.CommandGrantData.Cmd) && ag.PrincipalID == p &&
+//@           ag.DelegateCert.PublicKey == i.DelegateCert.PublicKey
+
+// AddAuthGrant files the grant under exactly (intent.TargetUsername, delegate key):
+// the entry for that pair grows by one element, which carries the intent's fields;
+// no other (user, key) entry of that user changes.
+//@ func (m *AuthgrantMapSync) AddAuthGrant(i *Intent, p PrincipalID)
+//@   property C07
+//@   atomic
+//@   ensures has(m.agMap, i.TargetUsername) && has(m.agMap[i.TargetUsername], i.DelegateCert.PublicKey)
+//@   ensures len(m.agMap[i.TargetUsername][i.DelegateCert.PublicKey]) == old(len(m.agMap[i.TargetUsername][i.DelegateCert.PublicKey])) + 1
+//@   ensures (let n = old(len(m.agMap[i.TargetUsername][i.DelegateCert.PublicKey])) in (
+//@           let g = m.agMap[i.TargetUsername][i.DelegateCert.PublicKey][n] in
+//@           g.GrantType == i.GrantType && same(g.StartTime, i.StartTime) && same(g.ExpTime, i.ExpTime) &&
+//@           same(g.AssociatedData.CommandGrantData.Cmd, i.AssociatedData.CommandGrantData.Cmd) && g.PrincipalID == p))
